@@ -136,6 +136,17 @@ func (p *c19) history(i int) c19history {
 		h.files["includes-9M"] = "a {% include 'size-9M' %} b"
 		sized = append(sized, "size-1M", "size-9M", "includes-9M")
 	}
+	// files that begin like something else: byte order marks of every encoding, the magic numbers of archives,
+	// images and programs. A template is bytes; whatever a loader thinks of them, it gives back what it opened
+	for k, head := range c19Heads {
+		n := fmt.Sprintf("head-%02d", k)
+		h.files[n] = head + "h\x00i\x00 {{ 1 }}"
+		sized = append(sized, n)
+		if (k+i)%4 == 0 {
+			h.files["includes-"+n] = "a {% include '" + n + "' %} b"
+			sized = append(sized, "includes-"+n)
+		}
+	}
 	names := []string{"main", "part1", "part2", "layout", "macros", "base0", "broken-lex", "broken-parse", "includes-broken", "extends-broken", "imports-broken", "runtime-fail", "many", "no-such-template", "subdir", "", "includes-dir", "includes-empty", "extends-dir", "subdir/inner",
 		"linkout.twig", "linkdir/o.twig", "linkin.twig", "dangling.twig", "linkdir", "includes-linkout", "../" + "x", "subdir/../main", "./main", "subdir//inner", "../c19-outside.twig", "subdir/../../c19-outside.twig", "includes-dotdot"}
 	h.files["includes-dotdot"] = "a {% include '../c19-outside.twig' %} b"
@@ -176,6 +187,9 @@ func (p *c19) Describe(i int) interface{} {
 	}
 	return map[string]interface{}{"calls": calls, "templates": len(h.files)}
 }
+
+var c19Heads = []string{"\xff\xfe", "\xfe\xff\x00", "\xff\xfe\x00\x00", "\x00\x00\xfe\xff", "\xef\xbb\xbf", "\xef\xbb", "\x1f\x8b\x08\x00", "PK\x03\x04", "\x7fELF\x02\x01", "%PDF-1.4\n", "#!/bin/sh\n", "<?xml version=\"1.0\"?>",
+	"\x00\x00\x00\x00", "MZ\x90\x00", "GIF89a", "\xff\xd8\xff\xe0", "\x89PNG\r\n\x1a\n", "{\\rtf1", "\xff\xff\xff\xff", "BZh9", "\xfd7zXZ\x00", "\xca\xfe\xba\xbe", "\x2b\x2f\x76\x38", "\x0e\xfe\xff", "\xfb\xee\x28", "\x84\x31\x95\x33", "\r\n\r\n", "\x1b[0m"}
 
 var c19dirSeq int64
 
